@@ -297,6 +297,10 @@ class RefFlows(Monitor):
         before, after = data['before'], data['after']
         parent = data['parent']
         for c in sorted(self._children(parent, data['output'])):
+            if c != parent and c not in after and c not in before and (
+                    pf & frozenset(self.done.get(c, ()))):
+                # the flow reached a finished task again: not respawned
+                COUNT.inc('finished-child-not-respawned')
             if c == parent or c not in after:
                 continue
             if c not in before:
@@ -408,12 +412,35 @@ class RefFlows(Monitor):
 
 
 class FlowProfile(OpProfile):
-    """Operator alphabet indexed by the number of commands already given."""
+    """Operator alphabet indexed by the number of commands already given.
 
-    def __init__(self, spec, *, op_lists, **kw):
+    whens[i] restricts where command i+1 is offered: 'any' = every main-loop
+    boundary; 'early' = only before the first job has been launched;
+    'after-restart' = only once the scheduler has been restarted.
+    """
+
+    def __init__(self, spec, *, op_lists, whens=None,
+                 stop_between_only=True, **kw):
         self.op_lists = op_lists
+        self.whens = list(whens or ['any'] * len(op_lists))
+        # a restart after the last command cannot be followed by a new flow:
+        # offer stop only between commands
+        self.stop_between_only = stop_between_only
 
         def ops(w):
             i = w.op_count
-            return self.op_lists[i] if i < len(self.op_lists) else []
+            if i >= len(self.op_lists):
+                return []
+            when = self.whens[i]
+            if when == 'early' and w.env.jobs:
+                return []
+            if when == 'after-restart' and not w.n_restarts:
+                return []
+            return self.op_lists[i]
         super().__init__(spec, ops=ops, op_budget=len(op_lists), **kw)
+
+    def operator_events(self, w):
+        out = super().operator_events(w)
+        if self.stop_between_only and w.op_count >= self.op_budget:
+            out = [e for e in out if e[0] != 'stop']
+        return out
